@@ -25,7 +25,7 @@ func TestMain(m *testing.M) {
 	ev = evid.New("C13", "fault_enumeration",
 		"real UDP loopback and real clock, library used through DialV2 with no hook: call in {session-less command, NewSession (with discovery), in-session command, session Close, "+
 			"RetrieveSDRRepository, dcmi.GetSensorInfo} x fault pattern in {black hole, reply after the per-attempt timeout, garbage on every attempt, 0xC0 forever, truncated handshake "+
-			"replies} starting at every step k of the call x per-attempt timeout T in {20, 50} ms x deadline D in {already expired, 0.5T, T, 2.5T, 6T}. Oracle: measured return time "+
+			"replies} starting at every step k of the call x per-attempt timeout T in {20, 50} ms x deadline D in {already expired, 0.5T, T, 2.5T, 6T}, plus T = 1.5 s with D in {already expired, 100 ms}. Oracle: measured return time "+
 			"<= D + 300 ms (a measurement over the limit is repeated and only 3 of 3 counts; a watchdog at D + 5 s turns a hang into a violation), error non-nil whenever no valid "+
 			"final response was delivered. Non-trivial = the fault took effect before completion; distinct by (call, fault, k, T, D)")
 	ev.Assume("the quantity under test is wall-clock time: a 300 ms scheduling allowance and confirmation re-runs are used", "cancellation (as opposed to a deadline) while blocked in a read is honoured at the attempt timeout by design")
@@ -42,7 +42,9 @@ type Case struct {
 	D     time.Duration // < 0: already expired
 }
 
-func (c Case) String() string { return fmt.Sprintf("%s/%s/k=%d/T=%v/D=%v", c.Call, c.Fault, c.K, c.T, c.D) }
+func (c Case) String() string {
+	return fmt.Sprintf("%s/%s/k=%d/T=%v/D=%v", c.Call, c.Fault, c.K, c.T, c.D)
+}
 
 // env is a BMC + UDP server + dialled connection (+ session).
 type env struct {
@@ -267,6 +269,15 @@ func cases() []Case {
 			}
 		}
 	}
+	// a per-attempt timeout far longer than the deadline: the deadline, not the
+	// attempt timeout, must bound the call
+	for _, call := range []string{"sessionless", "newsession", "insession", "close", "sdr", "dcmi"} {
+		for _, f := range []string{"blackhole", "garbage", "busy"} {
+			for _, d := range []time.Duration{-1, 100 * time.Millisecond} {
+				out = append(out, Case{Call: call, Fault: f, K: 0, T: 1500 * time.Millisecond, D: d})
+			}
+		}
+	}
 	return out
 }
 
@@ -296,7 +307,7 @@ func TestDeadlines(t *testing.T) {
 		// a seed-dependent stride through the enumeration, keeping every (call, fault) pair
 		stride := 5
 		for i, c := range all {
-			if (i+int(ev.Seed))%stride == 0 {
+			if (i+int(ev.Seed))%stride == 0 || c.T > time.Second {
 				sel = append(sel, c)
 			}
 		}
